@@ -10,7 +10,7 @@ def run(tier):
     rep = core.Report("C19", tier, "model_checking")
     rep.rule = ("breadth-first search over histories of the 12 DString operations with positions/lengths from {0,1,len-1,len,len+1,(size_t)-1} and payloads of "
                 "{0,1,3,1022,1023,1024,1025,2049} bytes (+ a NUL-containing array for the binary append), from 10 start states (empty, foo, ababab and d_string_new on strings of 1022, 1023, 1024, 1025, 2048, 2049, 4096 bytes); state = (content, length, capacity); "
-                "every transition is executed on the real DString (a trace validated against the implementation) and compared with a byte-vector model: content, "
+                "plus a length sweep (every payload length 0..4200 through every inserting operation); every transition is executed on the real DString (a trace validated against the implementation) and compared with a byte-vector model: content, "
                 "recorded length, NUL terminator, capacity > length; ASan+UBSan watch the accesses")
     rep.assumptions = ["replace_text_in_range only with a non-empty pattern; a match straddling the end of the range is counted as unjudged",
                        "copy_substring 'to the end' from beyond the end is unjudged (header silent)"]
